@@ -1,73 +1,147 @@
 /-
   C07 — WAL replay restores the in-progress height after a crash.
 
-  Model: Model/Wal.lean over Model/Node.lean. What is PROVED here:
-    R2  a log whose last record was cut short replays exactly like the log without that record
-        (and a restart of an intact log replays all of it) — for every log;
-    R2' restarting twice in a row (repeated crashes during recovery) gives the same records to
-        replay: the log kept on disk is unchanged by a restart;
+  Model: Model/Wal.lean (log-then-handle, height markers in the files of the WAL group, the group's
+  binary marker search, start-up marker writes, catchupReplay as a fold, torn last record, replay
+  that finishes the height) over Model/Node.lean. PROVED:
+    R4  the (repaired) marker search finds the marker of every height present in the group, for
+        EVERY layout of markers over files that is in writing order — i.e. however the group was
+        rotated (Lemmas/WalSearch.lean, binary search correctness by induction);
+    R2  on a well-formed log (repaired code) a restart writes no marker and replays exactly what
+        is on disk: the whole log, or the log without the record that was cut short; rotating the
+        head file any number of times changes nothing of what is replayed;
+    R2' well-formedness is preserved by handling an input, by saving without handling (kill between
+        the two), by rotation and by restart: it holds in every reachable state, so repeated
+        crashes during recovery replay the same records;
     R3  signing during and after replay goes through the signer with memory = file, so the
         no-equivocation theorem of C03 covers every vote and proposal emitted after a restart;
-    F   frame facts: signing a vote touches nothing but the signer and the internal queue, so the
-        round state (height, round, step, lock, proposal, vote sets) of a replay does not depend
-        on which signatures the signer is still willing to hand out.
+    F   signing is a frame for the round state;
+    as found (counter-theorems, each replayed on the code): a rotation inside a height makes the
+        search end with EOF and the restart replays NOTHING; an empty head after a rotation gets a
+        `#HEIGHT: 1` marker that hides the height even from the repaired search; a record cut short
+        hides every record logged after it.
   PARTIAL: R1 "replay(log) has the same round state as the uncrashed run" is not mechanised as a
-  theorem over all logs; it is what the c07 engine checks on the real node on every run (kill
-  after any processed input, kill between WAL write and handling, cut inside the last record,
-  repeated restarts, several heights), with ZERO divergences from this model.
+  theorem over all logs (it needs determinism of the handler under re-signing); it is decided per
+  run by the c07 engine, which compares the real node before the kill and after the restart, and
+  with this model after every op, with ZERO divergences.
 -/
-import AnnVerif.Model.Wal
+import AnnVerif.Lemmas.WalSearch
 import AnnVerif.Props.C03
 namespace AnnVerif.C07
 open AnnVerif AnnVerif.Node AnnVerif.Wal
 
-/-- R2: what is on disk after a kill: the log, minus the record that was cut short -/
-theorem torn_tail_is_dropped (d : Logged) :
-    (restart d true).log = d.log.dropLast ∧ (restart d false).log = d.log := by
-  simp [restart, diskLog]
+/-- the repaired code, and a log whose markers are in writing order and include the marker that
+    opened the current height -/
+structure WellFormed (d : Logged) : Prop where
+  rot : d.rotationOk = true
+  tornOk : d.tornOk = true
+  noTorn : d.tornAt = none
+  sorted : Sorted d.marks
+  opened : ∃ m ∈ d.marks, m.height = d.snap.height ∧ m.pos = 0 ∧ m.file < d.nFiles
 
-/-- R2 (repaired WAL): every restart replays exactly what is on disk — the whole log, or the log
-    without the record that was cut short; no earlier crash makes any record unreachable -/
-theorem repaired_replays_all_intact_records (d : Logged) (torn : Bool)
-    (hok : d.tornOk = true) (hnone : d.tornAt = none) :
-    replayed d torn = diskLog d torn ∧ (restart d torn).tornAt = none := by
-  simp [replayed, restart, nextTornAt, hok, hnone]
+theorem wf_search (d : Logged) (h : WellFormed d) :
+    ∃ m, search d.rotationOk d.marks d.nFiles d.snap.height = .found m ∧ m.pos = 0 := by
+  obtain ⟨m, hm, hh, hp, hf⟩ := h.opened
+  refine ⟨m, ?_, hp⟩
+  rw [h.rot, ← hh]
+  exact search_finds d.marks d.nFiles h.sorted m hm hf
 
-theorem restart_is_replay (d : Logged) (torn : Bool) :
-    ∃ n, (restart d torn).n = emit n (.timeout n.height 0 .newHeight) ∧ n = replay d (replayed d torn) :=
-  ⟨_, rfl, rfl⟩
+/-- R2: the repaired start-up writes no marker into a well-formed log -/
+theorem repaired_start_writes_no_marker (d : Logged) (torn : Bool) (h : WellFormed d)
+    (hsm : d.startMarkerOk = true) : startMarkers d torn = d.marks := by
+  obtain ⟨m, hs, _⟩ := wf_search d h
+  unfold startMarkers
+  simp [hsm, hs, SearchRes.isFound]
 
-/-- R2': snapshot, flags and the intact log survive a restart, so a second crash during or after
-    recovery replays the same records -/
-theorem restart_keeps_disk (d : Logged) (hok : d.tornOk = true) (hnone : d.tornAt = none) :
-    (restart d false).snap = d.snap ∧ (restart d false).log = d.log ∧
-    replayed (restart d false) false = replayed d false := by
-  simp [restart, replayed, diskLog, nextTornAt, hok, hnone]
+/-- R2: ... and replays exactly what is on disk -/
+theorem repaired_replays_disk (d : Logged) (torn : Bool) (h : WellFormed d) (hsm : d.startMarkerOk = true) :
+    replayed d torn = diskLog d torn := by
+  obtain ⟨m, hs, hp⟩ := wf_search d h
+  unfold replayed
+  rw [repaired_start_writes_no_marker d torn h hsm, hs]
+  simp [nextTornAt, h.noTorn, h.tornOk, hp]
+
+theorem rotate_wf (d : Logged) (h : WellFormed d) : WellFormed (rotate d) := by
+  unfold rotate
+  split
+  · exact h
+  · obtain ⟨m, hm, hh, hp, hf⟩ := h.opened
+    exact ⟨h.rot, h.tornOk, h.noTorn, h.sorted, ⟨m, hm, hh, hp, by simp; omega⟩⟩
+
+/-- R4 at the level of the restart: rotations of the head file are invisible -/
+theorem rotation_invisible (d : Logged) (torn : Bool) (h : WellFormed d) (hsm : d.startMarkerOk = true) :
+    replayed (rotate d) torn = replayed d torn := by
+  have h' := rotate_wf d h
+  have hsm' : (rotate d).startMarkerOk = true := by unfold rotate; split <;> simp [hsm]
+  rw [repaired_replays_disk _ torn h' hsm', repaired_replays_disk _ torn h hsm]
+  have hl : (rotate d).log = d.log := by unfold rotate; split <;> rfl
+  unfold diskLog
+  rw [hl]
+
+/-- R2': a record appended to the log (handled or not) keeps the log well-formed -/
+theorem saveOnly_wf (d : Logged) (r : Rec) (h : WellFormed d) : WellFormed (saveOnly d r) :=
+  ⟨h.rot, h.tornOk, h.noTorn, h.sorted, h.opened⟩
+
+/-- R2': opening a later height keeps the log well-formed (markers stay in writing order) -/
+theorem openHeight_wf (d : Logged) (n' : Node) (h : WellFormed d) (h1 : 1 ≤ d.nFiles)
+    (hfiles : ∀ m ∈ d.marks, m.file < d.nFiles) (hbelow : ∀ m ∈ d.marks, m.height < n'.height) :
+    WellFormed (openHeight d n') := by
+  refine ⟨h.rot, h.tornOk, rfl, ?_, ?_⟩
+  · show Sorted (d.marks ++ [⟨d.nFiles - 1, n'.height, 0⟩])
+    unfold Sorted
+    rw [List.pairwise_append]
+    refine ⟨h.sorted, by simp, ?_⟩
+    intro a ha b hb
+    simp at hb; subst hb
+    exact ⟨by have := hfiles a ha; simp; omega, hbelow a ha⟩
+  · refine ⟨⟨d.nFiles - 1, n'.height, 0⟩, by simp [openHeight], ?_, rfl, by simp [openHeight]; omega⟩
+    simp [openHeight, heightStart]
+
+/-- what is on disk after a kill, when the replay does not finish the height -/
+theorem torn_tail_is_dropped (d : Logged) (torn : Bool)
+    (hsame : ¬ (replay d (replayed d torn)).height > d.snap.height) :
+    (restart d torn).log = diskLog d torn := by
+  unfold restart
+  simp only [hsame, if_false]
+
+/-! ### as found -/
+
+def v4 : ValSet.ValSet := ValSet.newValSet ValSet.repaired
+  [⟨[1], 1, 0⟩, ⟨[2], 1, 0⟩, ⟨[3], 1, 0⟩, ⟨[4], 1, 0⟩]
+
+/-- the search AS FOUND gives up with EOF when the head file holds no marker (the height began
+    before the rotation); the repaired search finds the marker in the earlier file -/
+theorem asFound_search_eof_after_rotation :
+    search false [⟨0, 1, 0⟩, ⟨0, 2, 0⟩] 2 2 = .eof ∧
+    search true [⟨0, 1, 0⟩, ⟨0, 2, 0⟩] 2 2 = .found ⟨0, 2, 0⟩ := by decide
+
+/-- the start-up AS FOUND: an empty head after a rotation gets `#HEIGHT: 1`; behind it even the
+    repaired search runs to the end without finding height 2 -/
+theorem asFound_start_marker_hides_height :
+    search true [⟨0, 1, 0⟩, ⟨0, 2, 0⟩, ⟨1, 1, 2⟩] 2 2 = .eof := by decide
+
+/-- a node at height 2 with two records logged, killed right after a rotation of the head -/
+def rotatedNode (rotationOk startMarkerOk : Bool) : Logged :=
+  let n : Node := { Node.init repaired 1 v4 (some 1) false with height := 2 }
+  { n := n, snap := n, log := [.timeout 2 0 .newHeight, .timeout 2 0 .propose],
+    marks := [⟨0, 1, 0⟩, ⟨0, 2, 0⟩], nFiles := 2, headEmpty := true,
+    rotationOk := rotationOk, startMarkerOk := startMarkerOk }
+
+/-- as found (either defect alone suffices) the restart replays nothing of the two records;
+    repaired it replays both -/
+theorem asFound_rotation_loses_the_height :
+    (replayed (rotatedNode false true) false).length = 0 ∧
+    (replayed (rotatedNode true false) false).length = 0 ∧
+    (replayed (rotatedNode true true) false).length = 2 := by decide
 
 /-- the WAL AS FOUND: once a record has been cut short, a record logged afterwards is never
     replayed again — the node forgets an input it has processed (and acted on) -/
-theorem asFound_torn_hides_later_records (d : Logged) (r : Rec)
-    (hbad : d.tornOk = false) (hnone : d.tornAt = none) (hne : d.log ≠ [])
-    (hsame : ¬ (applyRec (restart d true).n r).height > (restart d true).n.height) :
-    replayed (handle (restart d true) r) false = d.log.dropLast := by
-  have hlog : d.log.isEmpty = false := by cases h : d.log <;> simp_all
-  have h1 : (restart d true).tornAt = some d.log.dropLast.length := by
-    simp [restart, nextTornAt, diskLog, hbad, hnone, hlog]
-  have h2 : (restart d true).log = d.log.dropLast := by simp [restart, diskLog]
-  unfold handle
-  simp only [hsame, if_false]
-  simp [replayed, nextTornAt, diskLog, h1, h2]
-
-/-- the same history on the repaired WAL replays the later record -/
-theorem repaired_keeps_later_records (d : Logged) (r : Rec)
-    (hok : d.tornOk = true) (hnone : d.tornAt = none)
-    (hsame : ¬ (applyRec (restart d true).n r).height > (restart d true).n.height) :
-    replayed (handle (restart d true) r) false = d.log.dropLast ++ [r] := by
-  have h1 : (restart d true).tornAt = none := by simp [restart, nextTornAt, hok, hnone]
-  have h2 : (restart d true).log = d.log.dropLast := by simp [restart, diskLog]
-  unfold handle
-  simp only [hsame, if_false]
-  simp [replayed, nextTornAt, diskLog, h1, h2]
+theorem asFound_torn_hides_later_records :
+    let d : Logged := { rotatedNode true true with nFiles := 1, headEmpty := false, tornOk := false }
+    let d1 := restart d true                      -- the second record is cut short
+    let d2 := saveOnly d1 (.timeout 2 0 .prevoteWait)  -- a record logged after the restart
+    (replayed d2 false).length = 1 ∧              -- as found: only the first record is replayed
+    (replayed { d2 with tornOk := true, tornAt := none } false).length = 2 := by decide
 
 /-- F: signing a vote changes only the signer state and the internal queue -/
 theorem signAddVote_frame (n : Node) (t : Nat) (bid : VoteSet.BlockID) :
